@@ -52,7 +52,10 @@ def reply_to_events(meta, data, partial, rep):
     return out
 
 
-def validate(defs_path, runs, name, spec="LexTrace.tla", cfg="LexTrace.cfg", jvms=8, per_file=4000):
+MAX_REJECTS = 40      # a rejected run costs extra JVM starts; beyond this many the verdict does not change
+
+
+def validate(defs_path, runs, name, spec="LexTrace.tla", cfg="LexTrace.cfg", jvms=8, per_file=4000, depth=0):
     """runs: list of event lists (each starting with a run event).  Returns (accepted_runs, rejects)
     where rejects is a list of dicts {run index, event index, event}."""
     wd = os.path.join(workdir(), "trace-%s-%d" % (name, os.getpid()))
@@ -115,6 +118,10 @@ def validate(defs_path, runs, name, spec="LexTrace.tla", cfg="LexTrace.cfg", jvm
             pending_idx = [ri for ri, off in rest]
             rejects[-1]["_rest"] = pending_idx
     subprocess.run(["rm", "-rf", wd])
+    if len(rejects) >= MAX_REJECTS or depth >= 3:
+        for r in rejects:
+            r.pop("_rest", None)
+        return accepted, rejects, total
     if pending:
         # recurse on the runs that were not examined because their file was rejected earlier
         rest_runs = []
@@ -123,7 +130,7 @@ def validate(defs_path, runs, name, spec="LexTrace.tla", cfg="LexTrace.cfg", jvm
             for ri in r.pop("_rest", []):
                 rest_map.append(ri)
                 rest_runs.append(runs[ri])
-        acc2, rej2, tot2 = validate(defs_path, rest_runs, name + "r", spec, cfg, jvms, max(200, per_file // 4))
+        acc2, rej2, tot2 = validate(defs_path, rest_runs, name + "r", spec, cfg, jvms, max(200, per_file // 4), depth + 1)
         accepted += acc2
         total += tot2
         for r in rej2:
